@@ -38,6 +38,7 @@ def run(ck, progs):
         _ids(ck, P, cfg)
         _matchers(ck, P, cfg)
         _exhaustive(ck, P, cfg)
+        _matched_only(ck, P, cfg)
         rules_mpi.check_p2p(ck, P, "C02.9")
         rules_msg.check_deferred_free(ck, P, "C02.6")
         rules_part.check_routing_users(Renamed(ck, {}), P, "C02.7")
@@ -303,6 +304,42 @@ def _exhaustive(ck, P, cfg):
                 ck.inconclusive("C02.8", inst, o.where, "no branch decides the not-found outcome", cfg)
             else:
                 ck.holds("C02.8", inst, o.where, "%s only at the end of the list (%d deciding test(s): end of list and identity only)" % (what, n_dec), cfg)
+
+
+def _matched_only(ck, P, cfg):
+    """handle_remote_anti_msg may release the anti-message only after it matched an event (both identity fields compared equal on
+    the path); otherwise the anti-message must be kept for the event that has not arrived or not been processed yet."""
+    h = P.fn("handle_remote_anti_msg")
+    if len(h.params) < 2:
+        ck.inconclusive("C02.8", "release-after-match@handle_remote_anti_msg", h.where, "unexpected signature", cfg)
+        return
+    a = h.params[1]["name"]
+    frees = [c for c in h.calls("msg_allocator_free") if X.strip(X.callee_args(c)[0]).k == "DeclRefExpr" and X.strip(X.callee_args(c)[0]).name == a]
+    ck.expect("C02.8", len(frees), 1, "releases of the anti-message in handle_remote_anti_msg")
+    for c in frees:
+        inst = "release-after-match@handle_remote_anti_msg"
+        paths, complete = Q.path_conditions(h, c)
+        if not complete or not paths:
+            ck.inconclusive("C02.8", inst, c.where, "paths to the release could not be enumerated", cfg)
+            continue
+        bad = None
+        for conds in paths:
+            got = set()
+            for core, t in conds:
+                core = X.strip(core)
+                if core.k == "BinaryOperator" and core.op in ("!=", "=="):
+                    equal = (core.op == "!=" and t is False) or (core.op == "==" and t is True)
+                    if equal:
+                        for x in core.walk():
+                            if x.k == "MemberExpr" and x.name in ("raw_flags", "m_seq", "flags"):
+                                got.add("raw_flags" if x.name == "flags" else x.name)
+            if not {"raw_flags", "m_seq"} <= got:
+                bad = conds
+        if bad is not None:
+            ck.violated("C02.8", inst, c.where, "the anti-message is released on a path where no event was matched (conditions on it: %s): the event it cancels may still be queued or in flight, "
+                        "and will be processed as if it had never been cancelled" % ", ".join("%s=%s" % (X.show(core)[:30], t) for core, t in bad[:4]), cfg)
+        else:
+            ck.holds("C02.8", inst, c.where, "released only after both identity fields compared equal (%d path(s)); otherwise it is parked on the early list" % len(paths), cfg)
 
 
 def _flag_sets(f, name):
